@@ -21,12 +21,16 @@ TRUSTED_BASE = L.TRUSTED_COMMON
 PROFILE = L.profile(without=['clear', 'rawupdate', 'rawdelete', 'unpickle'],
                     weights={'setattr': 18, 'set': 14, 'syncupdate': 8, 'sync': 5, 'expire': 4, 'select': 8, 'pickle': 4, 'destroy': 3,
                              'read': 8, 'create': 8},
-                    kinds=[1, 1, 1, 0], p_fault=0.03, p_iterwrite=0.15, motifs=[L.motif_lazy_refetch, L.motif_lazy_expire], p_motif=0.06)
+                    kinds=[1, 1, 1, 0], p_fault=0.03, p_iterwrite=0.15, motifs=[L.motif_lazy_refetch, L.motif_lazy_expire, L.motif_refused_flush_refetch, L.motif_expire_assign_reload], p_motif=0.08)
 FLUSHES = ('syncupdate', 'sync', 'pickle')
 
 
 def corpus():
     return [
+        # fixed (71eb426): a lazy set() with a property keyword whose setter refuses queued the column values before raising
+        {'cfg': {'cache': False, 'freq': 5, 'frac': 1}, 'ops': [['create', 1, [[1, 100], [0, 3]]], ['set', 0, [[0, None], [1, 101], [4, 'bad']]],
+                                                                 ['read', 0, 0], ['syncupdate', 0], ['set', 0, [[4, 2], [0, 7]]], ['syncupdate', 0]]},
+        {'cfg': {'cache': True, 'freq': 100, 'frac': 2}, 'ops': [['create', 0, [[1, 100], [0, 3]]], ['set', 0, [[0, 4], [4, 'bad'], [2, 1]]], ['read', 0, 0]]},
         # fixed (6e79cab): a lazy set() with an unknown keyword queued the other values before raising TypeError
         {'cfg': {'cache': True, 'freq': 100, 'frac': 2}, 'ops': [['create', 1, [[1, 100]]], ['set', 0, [[0, 5], [3, 1]]], ['read', 0, 0], ['syncupdate', 0]]},
         # fixed: expire() used to leave dirty set; an empty set() used to set it
@@ -127,7 +131,8 @@ def failures(case, obs):
             kvs = [[core[2], core[3]]] if t == 'setattr' else core[2]
             last = {}
             for c, v in kvs:
-                last[c] = v
+                if c < len(L.COLS):          # keywords 3 (unknown) and 4 (a property of the class) are not columns
+                    last[c] = v
             for c, v in last.items():
                 if now[2][c] != ['v', v] or [c, v] not in now[6]:
                     d = dict(base)
